@@ -32,8 +32,8 @@ PROPS = {
     "C04": dict(design=["P_C04_Order"], obs=["Obs_C04_Order", "Obs_C04_Held"],
                 universes=["U1", "U2", "U3", "U4"], dcfg=[("U1", "plain"), ("U1", "crash"), ("U2", "clean")]),
     "C05": dict(design=["P_C05_Once", "P_C05_LogOnce"],
-                obs=["Obs_C05_Once", "Obs_C05_LogOnce", "Obs_C05_QueryNoEffect", "Obs_C05_DupAnswered"],
-                universes=["U1", "U3"], dcfg=[("U1", "plain"), ("U1", "crash"), ("U1", "clean")]),
+                obs=["Obs_C05_Once", "Obs_C05_LogOnce", "Obs_C05_QueryNoEffect", "Obs_C05_DupAnswered", "Obs_C05_KnownDelivered"],
+                universes=["U1", "U4"], dcfg=[("U1", "plain"), ("U1", "crash"), ("U1", "clean")]),
     "C06": dict(design=["P_C06_NoStrand", "P_C06_NoLoss", "P_C06_LoggedDelivered", "P_C01_Final", "P_C05_Once"],
                 obs=["Obs_C06_NoStrand", "Obs_C06_NoLoss", "Obs_C06_LoggedDelivered", "Obs_C06_Trichotomy", "Obs_C01_Final", "Obs_C05_Once"],
                 universes=["U1", "U3"], dcfg=[("U1", "crash")], crashall=True),
@@ -80,21 +80,22 @@ def base_consts(u, budgets, hostile, extra=None):
     c.update(budgets)
     c.update(kf_consts())
     c["Hostile"] = tla_bool(hostile)
-    c.update({"MaxCmds": 0, "GenCrash": "FALSE", "Emit": "FALSE", "TraceFile": '"none"', "Focus": "{}", "FullOnly": "FALSE"})
+    c.update({"MaxCmds": 0, "GenCrash": "FALSE", "Emit": "FALSE", "TraceFile": '"none"', "Focus": "{}", "FullOnly": "FALSE",
+              "ExpireAnytime": "FALSE"})
     if extra:
         c.update(extra)
     return c
 
 
-QUICK_CAP = 3000
-FOCUS_PARTS = {"C09", "C01"}     # properties about parts of files: focused sequences carry parts too
-FOCUS = {"C20": ["recv", "prepare", "age", "clean", "restart"],
-         "C06": ["recv", "status", "restart"],
-         "C05": ["recv", "received", "restart", "expire"],
-         "C04": ["recv", "status", "timer", "clean"],
-         "C09": ["recv", "prepare", "received", "received2"],
-         "C01": ["recv", "status", "overwrite"]}
+QUICK_CAP = int(os.environ.get("VERIF_QUICK_CAP", "3000"))
 WANT_OPS = {"C20": {"age", "clean"}, "C06": {"restart"}, "C05": {"restart"}}
+# focused exhaustive generation per property: (commands, depth in the quick tier, whole files only)
+FOCUS = {"C20": [(["recv", "prepare", "age", "clean", "restart"], 4, True)],
+         "C06": [(["recv", "status", "restart"], 4, True)],
+         "C05": [(["recv", "received", "restart", "expire"], 4, True), (["recv", "received", "expire"], 5, True)],
+         "C04": [(["recv", "status", "timer", "clean"], 4, True)],
+         "C09": [(["recv", "prepare", "received", "received2"], 3, False)],
+         "C01": [(["recv", "status", "overwrite"], 3, False)]}
 
 
 def gen_scenarios(ctx, u, path):
@@ -128,12 +129,10 @@ def gen_scenarios(ctx, u, path):
         raise Inconclusive("scenario generation (exhaustive) failed:\n" + r.out[-1500:])
     nshort = n
     # exhaustive sequences over the commands the property is about (whole files only, or shorter with parts)
-    focus = FOCUS.get(ctx.prop)
-    if focus:
-        parts_too = ctx.prop in FOCUS_PARTS
-        depth = (3 if parts_too else 4) + (0 if ctx.tier == "quick" else 1)
+    for (focus, depth, whole) in FOCUS.get(ctx.prop, []):
+        depth += 0 if ctx.tier == "quick" else 1
         c = base_consts(u, dict(big, MaxCrash=1), hostile, {"MaxCmds": depth, "GenCrash": "TRUE", "Emit": "TRUE",
-                                                           "FullOnly": tla_bool(not parts_too),
+                                                           "FullOnly": tla_bool(whole), "ExpireAnytime": "TRUE",
                                                            "Focus": "{" + ", ".join('"%s"' % o for o in focus) + "}"})
         r = tlc(ctx, "MCStage", cfg("GenSpec", c, constraint="EmitScenario"), timeout=1500, heap="8g", sink=sink)
         if not r.ok:
@@ -309,7 +308,7 @@ KF_TEXT = {
 }
 
 
-def check(ctx, replay=None):
+def check(ctx, replay=None, final=True):
     prop = ctx.prop
     P = PROPS[prop]
     build_harness(ctx)
@@ -384,6 +383,8 @@ def check(ctx, replay=None):
                        "file content abstracted to 2 blocks of 4 bytes; MD5 idealised as injective on them",
                        "the design check assumes a sender that follows the protocol (no overlapping parts in flight, "
                        "no repetition of acknowledged parts unless told, versions move forward)"]
+    if not final:
+        return None
     return finish(ctx, RULE)
 
 
